@@ -319,7 +319,9 @@ def translate(src: Path) -> dict:
     H = '_on_session_initialized'
     parts = [
         ('burst_network', Walker(network).walk(H)),
-        ('burst_distributed', Walker(dist, fixed={'_notify_server_of_parent': '[BranchLevel 0; BranchRoot 0; ToggleParentSearch true]'}).walk(H)),
+        ('burst_distributed', Walker(dist, fixed={'_notify_server_of_parent': '[BranchLevel 0; BranchRoot 0; ToggleParentSearch true]',
+                                                      # sends to child connections only (repair 9a1d31a): nothing goes to the server
+                                                      '_notify_children_of_branch_values': '[]'}).walk(H)),
         ('burst_users', Walker(users).walk(H)),
         ('burst_rooms', Walker(rooms).walk(H)),
         ('burst_interests', Walker(interests).walk(H)),
